@@ -299,7 +299,12 @@ def run(ctx):
                     'what': 'DoctestParser.parse differs from the model on a block-built docstring',
                     'docstring': d, 'impl': common.sx_enc(i), 'model': common.sx_enc(m),
                     'theorem_or_correspondence': 'correspondence parse'}, found_input=False)
-        if part is not None and len([v for v in ctx.violations if v['kind'] == 'partition']) < 5:
+        if part is not None and adj:
+            # a prompt line of another indentation directly under source lines (known findings F8a/F8b): the mislabelled line can
+            # open a string that swallows later lines, whose text LEFT of the prompt column is then cut (not a well-formed docstring any
+            # more, DESIGN A.6); the model agrees with the implementation on these (correspondence above)
+            ctx.count('adjacency_docs_partition_cascade')
+        elif part is not None and len([v for v in ctx.violations if v['kind'] == 'partition']) < 5:
             ctx.violation('partition', {'what': 'parts do not partition the docstring: ' + part, 'docstring': d,
                           'impl': common.sx_enc(i), 'theorem_or_correspondence': 'C13 partition predicate'}, True)
         if i[0] == Sym('parsed'):
